@@ -94,7 +94,7 @@ def run_one(args):
     try:
         chooser = vrt.ReplayChooser(choices) if choices is not None else None
         ctx = vrt.run_scenario(scenario, refbroker.factory(policy), seed=seed, chooser=chooser,
-                               p_preempt=0.15, p_jump=0.1, repo_path=str(common.REPO))
+                               p_preempt=0.15, p_jump=0.1, fair_time=(seed % 2 == 1), repo_path=str(common.REPO))
     finally:
         aio.IO.write_to_socket = orig
     out['abort'] = ctx.sched.abort_reason
